@@ -469,6 +469,69 @@ pub fn run(ctx: &Ctx) -> Result<(), String> {
         return Err(e);
     }
 
+    // the fault-injection clause on the real server binary configured from a FILE and from the
+    // ENVIRONMENT: with fault_percentage 50 written, 30..70 % of 400 replies fail verification and the
+    // rest verify in full; with 0 written all verify
+    {
+        use crate::proc::{free_port, ServerProc, Source, Written, BASE_SEED_HEX};
+        let pk = crypto::public_key(&crypto::unhex(BASE_SEED_HEX).try_into().unwrap());
+        let mut procs = vec![];
+        for src in [Source::File, Source::Env] {
+            for p in [0u8, 50] {
+                procs.push((src, p));
+            }
+        }
+        par_for(procs.len(), 1, |k, _| {
+            let (src, p) = procs[k];
+            for _attempt in 0..3 {
+                let port = free_port();
+                let mut w = Written::base(port);
+                w.set("num_workers", "1");
+                w.set("fault_percentage", &p.to_string());
+                let mut sp = match ServerProc::start(&w, src, &[]) {
+                    Ok(s) => s,
+                    Err(e) => {
+                        *failed.lock().unwrap() = Some(e);
+                        return;
+                    }
+                };
+                sp.wait_started(1, std::time::Duration::from_secs(10));
+                if sp.try_status().is_some() {
+                    continue;
+                }
+                let sock = std::net::UdpSocket::bind("127.0.0.1:0").unwrap();
+                sock.set_read_timeout(Some(std::time::Duration::from_secs(2))).unwrap();
+                let (mut total, mut bad) = (0u64, 0u64);
+                let mut buf = [0u8; 4096];
+                for i in 0..400u64 {
+                    let v = if i % 2 == 0 { Version::Classic } else { Version::Ietf13 };
+                    let req = rtref::responder::std_request(v, &nonce(0xfe_0000 + i, v.nonce_len()));
+                    let _ = sock.send_to(&req, ("127.0.0.1", port));
+                    if let Ok((l, _)) = sock.recv_from(&mut buf) {
+                        total += 1;
+                        if authentic(&buf[..l], &req, v, Some(&pk), SERVER_VIEW).is_err() {
+                            bad += 1;
+                        }
+                    }
+                }
+                sp.kill();
+                stats.replies.fetch_add(total, Relaxed);
+                let share = bad as f64 / total.max(1) as f64;
+                let ok = total >= 390 && if p == 0 { bad == 0 } else { (0.30..=0.70).contains(&share) };
+                rate.lock().unwrap().push(json!({"real_binary": true, "source": format!("{:?}", src), "p": p, "replies": total, "failed": bad, "share": share}));
+                if !ok {
+                    ctx.violation("fault-rate", "grease", &format!("real-binary/{:?}", src), json!({"kind":"rate-process","source":format!("{:?}", src),"p":p,"replies":total,"failed":bad,
+                        "message":format!("fault_percentage {} written ({:?}): {} of {} replies of the real server failed verification", p, src, bad, total)}));
+                }
+                return;
+            }
+            *failed.lock().unwrap() = Some("real server did not start for the fault-injection run".into());
+        });
+        if let Some(e) = failed.lock().unwrap().take() {
+            return Err(e);
+        }
+    }
+
     let replies = stats.replies.load(Relaxed);
     let shapes = stats.batch_shapes.lock().unwrap().clone();
     ctx.cov("states", json!(stats.histories.load(Relaxed) + shapes.len() as u64));
